@@ -86,6 +86,9 @@ impl NonFungibleBurnable for ConsLib {}
 
 pub const N: usize = 6; // actors 0..5; index 6 is the contracts' admin (signs mints only)
 pub const ADMIN: usize = 6;
+/// index 7 is the NFT contract's own address (pushed into the universe once the contract is deployed): nobody can
+/// sign for it from outside
+pub const SELF: usize = 7;
 pub const MAX_TTL: u32 = 200_000;
 /// long-horizon host: max_entry_ttl of about a year, so persistent / instance entries of the
 /// unmodified code (min_persistent_entry_ttl = max - 1) survive idle gaps of months
@@ -166,7 +169,7 @@ impl Sim {
         // natively executed contracts: the CPU/memory budget means nothing, and long owner
         // windows are read inside one frame
         e.cost_estimate().budget().reset_unlimited();
-        let u = Universe::new(&e, N + 1);
+        let mut u = Universe::new(&e, N + 1);
         // every other collection is deployed with an EMPTY base URI (only the existence of token_uri(id)
         // is observed, never its text): the getter must refuse unknown ids whatever the metadata
         static SIMS: std::sync::atomic::AtomicU32 = std::sync::atomic::AtomicU32::new(0);
@@ -198,6 +201,7 @@ impl Sim {
                 c
             }
         };
+        assert_eq!(u.push(tok.clone()), SELF);
         Sim { e, u, tok, fl, lib: fl == Flavour::Cons && k % 3 == 2, now: start, min_temp, max_ttl }
     }
     pub fn label(&self, what: &str) -> String {
